@@ -276,6 +276,7 @@ class C11(Campaign):
     fault_kinds = ["restart@op (new machine over the surviving model)", "restart-after-failed-transition",
                    "raise@initial-activation (sync constructor / deferred async activation), then restart + re-activation",
                    "re-activation (any number)", "concurrent activation (two tasks)",
+                   "second instance of the same class over an empty model with another start_value",
                    "first events from two tasks at once", "nested send from the initial enter callback",
                    "start_value on restart"]
     rule = ("one run = a generated machine driven through a history in which, at seeded points, the machine "
@@ -338,6 +339,22 @@ class C11(Campaign):
                         elif i + 1 < len(out) and out[i + 1]["op"] == "send":
                             out[i + 1] = {"op": "send2", "inst": "A", "a": out[i + 1],
                                           "b": {"op": "send", "inst": "A", "event": rnd.choice(prog["events"])}}
+        if rnd.random() < 0.3:
+            # another instance of the same class over its own, empty model and with another start_value:
+            # it must enter ITS initial / start_value state exactly once, whatever A did before
+            nb = dict(first)
+            nb["inst"] = "B"
+            nb.pop("keep_model", None)
+            nb.pop("start_value", None)
+            if rnd.random() < 0.6:
+                nb["start_value"] = value_of(prog, rnd.choice(prog["states"])["id"])
+            at = rnd.randrange(1, len(out) + 1)
+            extra = [nb]
+            if is_async and sc["driver"] == "inloop" and rnd.random() < 0.5:
+                extra.append({"op": "activate", "inst": "B"})
+            for _ in range(rnd.randint(1, 3)):
+                extra.append({"op": "send", "inst": "B", "event": rnd.choice(prog["events"])})
+            out = out[:at] + extra + out[at:]
         sc["ops"] = out
         n = len(out)
         for c in sc["gv"]:
@@ -346,12 +363,12 @@ class C11(Campaign):
         # a failing initial activation: the exception reaches the caller, the initial state is already
         # stored (enter => target), and activating / resuming afterwards runs nothing again
         enters = sorted(c for c, m_ in prog["cbs"].items() if m_["group"] == "enter")
-        if enters and rnd.random() < 0.2:
+        if enters and rnd.random() < 0.2 and not any(o.get("inst") == "B" for o in out):
             c = rnd.choice(enters)
             ep = 0
             if is_async:
-                ep = next((i for i, o in enumerate(out) if i > 0 and o["op"] in ("send", "activate", "send2",
-                                                                                 "activate2")), 1)
+                ep = next((i for i, o in enumerate(out) if i > 0 and o.get("inst") == "A"
+                           and o["op"] in ("send", "activate", "send2", "activate2")), 1)
             sc["beh"].setdefault(f"{prog['name']}/{c}", []).insert(
                 0, {"ep": ep, "j": 0, "dp": 0, "raise": rnd.choice(["SimFault", "SimBaseFault"]), "_fault": True})
             sc["activation_fault"] = True
@@ -380,7 +397,7 @@ class C11(Campaign):
                 j.add(i)
                 if op["op"] == "new":
                     for k2 in range(i + 1, len(ops)):
-                        if ops[k2]["op"] in ("send", "send2"):
+                        if ops[k2]["op"] in ("send", "send2") and ops[k2].get("inst") == op.get("inst"):
                             j.add(k2)
                             break
         return j
